@@ -5954,7 +5954,7 @@ def jobs_option_argsort(tier):
     q = [((0, 1, 0), (0, 0, 0)), ((1, 0, 0, 1), (0, 0, 1, 1)), ((1, 1), (0, 0)), ((0, 0), (0, 1))]
     if tier != 'quick':
         q += [((0, 1, 1, 0, 1), (0, 0, 1, 1, 1)), ((1,), (0,)), ((0, 1, 0, 1), (0, 1, 1, 2)), ((0, 0, 0), (0, 0, 0)), ((1, 1, 0), (0, 1, 1)), ((1, 0, 1), (0, 2, 2))]
-    rows = [([[0, 0, 1], [], [0, 0], [0, 1, 0]],), ([[1], [], [0]],)]
+    rows = [([[0, 0, 1], [], [0, 0], [0, 1, 0]],), ([[1], [], [0]],), ([[0], [], [0, 0]],)]         # the last: an option node with nothing missing still hands the shifts on
     if tier != 'quick':
         rows += [([[0, 1], [0], [1, 0], [], [0, 1]],), ([[], [1, 0], [0, 1]],), ([[0, 0], [1, 1]],)]
     plain = [((0, 0, 0), (0, 0, 1), None, False), ((), (), [[], [0, 0], [0]], False)]
